@@ -1,5 +1,5 @@
 Require Import V.Lib V.GoPath V.GoNet V.C01_Model.
-From Coq Require Import Permutation.
+From Coq Require Import Permutation ZifyBool ZifyN.
 Open Scope N_scope.
 
 (* ---------- longest path prefix ---------- *)
@@ -281,4 +281,847 @@ Proof.
   apply in_map_iff in Hin as ([key sid] & <- & Hs).
   exists key. split; [exact Hs|]. split; [|exact Hp].
   unfold entry_of, key_of in Hk. cbn in Hk. injection Hk as _ Hq. exact Hq.
+Qed.
+
+(* ====================================================================================== *)
+(* The real trie (vtrie: edges keyed by string(byte), insert_path / tmatch_path walking the *)
+(* key) refines the finite map.                                                            *)
+(* ====================================================================================== *)
+
+Lemma edge_get_upd_same k f es :
+  edge_get k (edge_upd k f es) =
+  Some (f (match edge_get k es with Some t => t | None => empty_trie end)).
+Proof.
+  induction es as [|[k' t] es IH]; simpl.
+  - rewrite beq_refl. reflexivity.
+  - destruct (beq k' k) eqn:E; simpl; rewrite E; [reflexivity|exact IH].
+Qed.
+
+Lemma edge_get_upd_other k k' f es : k <> k' -> edge_get k' (edge_upd k f es) = edge_get k' es.
+Proof.
+  intros Hne. induction es as [|[k0 t] es IH]; simpl.
+  - destruct (beq k k') eqn:E; [apply beq_eq in E; contradiction|reflexivity].
+  - destruct (beq k0 k) eqn:E; simpl.
+    + apply beq_eq in E. subst k0.
+      destruct (beq k k') eqn:E2; [apply beq_eq in E2; contradiction|reflexivity].
+    + rewrite IH. reflexivity.
+Qed.
+
+(* a Go map holds each key once: edge_upd keeps that *)
+Definition edge_keys (es : list (bytes * vtrie)) : list bytes := map fst es.
+Lemma edge_upd_keys_nodup k f es : NoDup (edge_keys es) -> NoDup (edge_keys (edge_upd k f es)).
+Proof.
+  induction es as [|[k' t] es IH]; intros Hnd; simpl.
+  - constructor; [intros []|constructor].
+  - destruct (beq k' k) eqn:E; simpl.
+    + exact Hnd.
+    + inversion Hnd as [|x xs Hnotin Hnd']; subst. constructor; [|apply IH; exact Hnd'].
+      intro Hin. apply Hnotin. clear - Hin E. induction es as [|[k0 t0] es IH]; simpl in *.
+      * destruct Hin as [<-|[]]. rewrite beq_refl in E. discriminate.
+      * destruct (beq k0 k); simpl in Hin; destruct Hin as [<-|Hin]; auto.
+Qed.
+
+Lemma edge_key_inj c c' : edge_key c = edge_key c' -> c = c'.
+Proof.
+  unfold edge_key. destruct (c <? 128) eqn:E1, (c' <? 128) eqn:E2; intros H; try discriminate.
+  - injection H; auto.
+  - assert (H1 : 192 + c / 64 = 192 + c' / 64) by congruence.
+    assert (H2 : 128 + c mod 64 = 128 + c' mod 64) by congruence.
+    apply N.add_cancel_l in H1, H2.
+    rewrite (N.div_mod c 64), (N.div_mod c' 64) by discriminate. rewrite H1, H2. reflexivity.
+Qed.
+
+Lemma get_empty k : get k empty_trie = None.
+Proof. destruct k; reflexivity. Qed.
+
+(* get after insert *)
+Lemma get_insert_same : forall k o s t, get k (insert_path k o s t) = Some (s, o).
+Proof.
+  induction k as [|c k IH]; intros o s t; [reflexivity|].
+  cbn [insert_path get t_edges]. rewrite edge_get_upd_same. apply IH.
+Qed.
+
+Lemma get_insert_other : forall k k' o s t, k <> k' -> get k' (insert_path k o s t) = get k' t.
+Proof.
+  induction k as [|c k IH]; intros [|c' k'] o s t Hne; cbn [insert_path get t_edges t_site];
+    try reflexivity; try congruence.
+  destruct (N.eq_dec c c') as [->|Hc].
+  - rewrite edge_get_upd_same.
+    destruct (edge_get (edge_key c') (t_edges t)) as [n|]; rewrite IH by congruence;
+      [reflexivity|apply get_empty].
+  - rewrite edge_get_upd_other; [reflexivity|]. intro E. apply edge_key_inj in E. contradiction.
+Qed.
+
+(* matchPath = the longest stored prefix *)
+Fixpoint longest_from {V} (g : bytes -> option V) (path : bytes) (k : nat) : option V :=
+  match k with
+  | O => None
+  | S k' => match g (firstn (S k') path) with Some v => Some v | None => longest_from g path k' end
+  end.
+
+Lemma longest_from_cons t c r next :
+  edge_get (edge_key c) (t_edges t) = Some next ->
+  forall k, longest_from (fun q => get q t) (c :: r) (S k) =
+            match longest_from (fun q => get q next) r k with Some v => Some v | None => t_site next end.
+Proof.
+  intros E. induction k as [|k IH].
+  - cbn [longest_from firstn get]. rewrite E. destruct (t_site next); reflexivity.
+  - change (longest_from (fun q => get q t) (c :: r) (S (S k)))
+      with (match get (c :: firstn (S k) r) t with
+            | Some v => Some v | None => longest_from (fun q => get q t) (c :: r) (S k) end).
+    cbn [get]. rewrite E. cbn [longest_from].
+    destruct (get (firstn (S k) r) next); [reflexivity|exact IH].
+Qed.
+
+Lemma longest_from_no_edge t c r :
+  edge_get (edge_key c) (t_edges t) = None ->
+  forall k, longest_from (fun q => get q t) (c :: r) k = None.
+Proof.
+  intros E. induction k as [|k IH]; [reflexivity|].
+  change (longest_from (fun q => get q t) (c :: r) (S k))
+    with (match get (c :: firstn k r) t with
+          | Some v => Some v | None => longest_from (fun q => get q t) (c :: r) k end).
+  cbn [get]. rewrite E. exact IH.
+Qed.
+
+Lemma tmatch_path_longest_from : forall rem t acc,
+  tmatch_path rem t acc =
+  match longest_from (fun q => get q t) rem (length rem) with Some v => Some v | None => acc end.
+Proof.
+  induction rem as [|c r IH]; intros t acc; [reflexivity|].
+  cbn [tmatch_path length]. destruct (edge_get (edge_key c) (t_edges t)) as [next|] eqn:E.
+  - rewrite IH, (longest_from_cons _ _ _ _ E).
+    destruct (longest_from (fun q => get q next) r (length r)); [reflexivity|].
+    destruct (t_site next); reflexivity.
+  - rewrite (longest_from_no_edge _ _ _ E). reflexivity.
+Qed.
+
+Lemma longest_from_some {V} (g : bytes -> option V) path : forall k v,
+  longest_from g path k = Some v ->
+  exists j, (1 <= j <= k)%nat /\ g (firstn j path) = Some v /\
+            forall j', (j < j' <= k)%nat -> g (firstn j' path) = None.
+Proof.
+  induction k as [|k IH]; intros v H; cbn [longest_from] in H; [discriminate|].
+  destruct (g (firstn (S k) path)) as [v'|] eqn:E.
+  - injection H as <-. exists (S k). split; [lia|]. split; [exact E|]. intros j' Hj. lia.
+  - destruct (IH _ H) as (j & Hj & Hg & Hn). exists j. split; [lia|]. split; [exact Hg|].
+    intros j' Hj'. destruct (Nat.eq_dec j' (S k)) as [->|Hne]; [exact E|]. apply Hn. lia.
+Qed.
+
+Lemma longest_from_none {V} (g : bytes -> option V) path : forall k,
+  longest_from g path k = None -> forall j, (1 <= j <= k)%nat -> g (firstn j path) = None.
+Proof.
+  induction k as [|k IH]; intros H j Hj; [lia|]. cbn [longest_from] in H.
+  destruct (g (firstn (S k) path)) eqn:E; [discriminate|].
+  destruct (Nat.eq_dec j (S k)) as [->|Hne]; [exact E|]. apply IH; auto. lia.
+Qed.
+
+Lemma has_prefix_firstn_self : forall (path : bytes) j, has_prefix path (firstn j path) = true.
+Proof. induction path as [|c path IH]; intros [|j]; simpl; auto. rewrite N.eqb_refl. apply IH. Qed.
+
+(* ANY trie (not only built ones): matchPath returns what is stored at the longest non-empty
+   prefix of the path that carries a site *)
+Theorem trie_match_path_longest b path v :
+  tmatch_path path b None = Some v ->
+  exists q, q <> [] /\ has_prefix path q = true /\ get q b = Some v /\
+    forall q', q' <> [] -> has_prefix path q' = true -> get q' b <> None ->
+               (length q' <= length q)%nat.
+Proof.
+  rewrite tmatch_path_longest_from. intros H.
+  destruct (longest_from (fun q => get q b) path (length path)) as [v'|] eqn:E; [|discriminate].
+  injection H as ->. apply longest_from_some in E as (j & Hj & Hg & Hn).
+  assert (Hlen : length (firstn j path) = j) by (rewrite firstn_length; lia).
+  exists (firstn j path). repeat split.
+  - intro E. rewrite E in Hlen. simpl in Hlen. lia.
+  - apply has_prefix_firstn_self.
+  - exact Hg.
+  - intros q' Hne Hp Hs. rewrite Hlen.
+    destruct (Nat.le_gt_cases (length q') j) as [|Hgt]; [assumption|].
+    exfalso. apply Hs. rewrite (has_prefix_firstn _ _ Hp). apply Hn.
+    split; [exact Hgt|]. apply has_prefix_length. exact Hp.
+Qed.
+
+Theorem trie_match_path_none b path :
+  tmatch_path path b None = None ->
+  forall q', q' <> [] -> has_prefix path q' = true -> get q' b = None.
+Proof.
+  rewrite tmatch_path_longest_from. intros H q' Hne Hp.
+  destruct (longest_from (fun q => get q b) path (length path)) eqn:E; [discriminate|].
+  rewrite (has_prefix_firstn _ _ Hp). apply (longest_from_none _ _ _ E).
+  split; [destruct q'; [congruence|simpl; lia] | apply has_prefix_length; exact Hp].
+Qed.
+
+(* ---------- refinement relation ---------- *)
+Definition refines (root : vtrie) (m : list entry) : Prop :=
+  (forall h, thost_present root h = host_present m h) /\
+  (forall h p, tlookup root h p = option_map (fun s => (s, p)) (lookup m h p)).
+
+Lemma refines_empty : refines empty_trie [].
+Proof. split; intros; reflexivity. Qed.
+
+Lemma split_host_path_slash key : exists r, snd (split_host_path key) = SLASH :: r.
+Proof. unfold split_host_path. destruct (split_first_slash key []) as [h rest]. cbn. eauto. Qed.
+
+Lemma find_filter_keep {A} (P Q : A -> bool) l :
+  (forall x, P x = true -> Q x = true) -> find P (filter Q l) = find P l.
+Proof.
+  intros H. induction l as [|a l IH]; simpl; [reflexivity|].
+  destruct (Q a) eqn:Eq; simpl.
+  - rewrite IH. reflexivity.
+  - destruct (P a) eqn:Ep; [rewrite (H _ Ep) in Eq; discriminate|exact IH].
+Qed.
+
+Lemma existsb_filter_keep {A} (P Q : A -> bool) l :
+  (forall x, P x = true -> Q x = true) -> existsb P (filter Q l) = existsb P l.
+Proof.
+  intros H. induction l as [|a l IH]; simpl; [reflexivity|].
+  destruct (Q a) eqn:Eq; simpl.
+  - rewrite IH. reflexivity.
+  - destruct (P a) eqn:Ep; [rewrite (H _ Ep) in Eq; discriminate|exact IH].
+Qed.
+
+(* the finite map after one insertion *)
+Lemma lookup_insert m key s h' p' :
+  lookup (insert m key s) h' p' =
+  if beq (fst (split_host_path key)) h' && beq (snd (split_host_path key)) p' then Some s
+  else lookup m h' p'.
+Proof.
+  unfold insert, lookup. destruct (split_host_path key) as [h p]. cbn [fst snd find].
+  unfold same_key at 1. cbn [e_host e_path e_site].
+  destruct (beq h h' && beq p p') eqn:E; [reflexivity|].
+  rewrite find_filter_keep; [reflexivity|].
+  intros e He. apply negb_true_iff. destruct (same_key h p e) eqn:E2; [|reflexivity].
+  apply same_key_iff in He, E2. rewrite He in E2. injection E2 as -> ->.
+  rewrite !beq_refl in E. discriminate.
+Qed.
+
+Lemma host_present_insert m key s h' :
+  host_present (insert m key s) h' = beq (fst (split_host_path key)) h' || host_present m h'.
+Proof.
+  unfold insert, host_present. destruct (split_host_path key) as [h p]. cbn [fst existsb e_host].
+  destruct (beq h h') eqn:E; [reflexivity|]. cbn [orb].
+  apply existsb_filter_keep. intros e He. apply negb_true_iff.
+  destruct (same_key h p e) eqn:E2; [|reflexivity].
+  apply same_key_iff in E2. injection E2 as E2 _. apply beq_eq in He.
+  assert (Hhh : h = h') by congruence. rewrite Hhh, beq_refl in E. discriminate.
+Qed.
+
+Lemma refines_insert root m key s :
+  refines root m -> refines (tinsert root key s) (insert m key s).
+Proof.
+  intros [Hh Hl]. split.
+  - intros h'. rewrite host_present_insert. unfold tinsert, thost_present.
+    destruct (split_host_path key) as [h p]. cbn [fst t_edges].
+    destruct (beq h h') eqn:E.
+    + apply beq_eq in E. subst h'. rewrite edge_get_upd_same. reflexivity.
+    + rewrite edge_get_upd_other by (intro E'; subst h'; rewrite beq_refl in E; discriminate).
+      cbn [orb]. apply Hh.
+  - intros h' p'. rewrite lookup_insert. unfold tinsert, tlookup.
+    destruct (split_host_path_slash key) as [r Hp].
+    destruct (split_host_path key) as [h p]. cbn [fst snd t_edges] in *.
+    destruct (beq h h') eqn:E.
+    + apply beq_eq in E. subst h'. rewrite edge_get_upd_same. cbn [andb].
+      destruct (beq p p') eqn:E2.
+      * apply beq_eq in E2. subst p'. rewrite get_insert_same. reflexivity.
+      * rewrite get_insert_other by (intro E'; subst p'; rewrite beq_refl in E2; discriminate).
+        rewrite <- Hl. unfold tlookup.
+        destruct (edge_get h (t_edges root)); [reflexivity|apply get_empty].
+    + rewrite edge_get_upd_other by (intro E'; subst h'; rewrite beq_refl in E; discriminate).
+      cbn [andb]. apply Hl.
+Qed.
+
+Lemma tbuild_snoc sites s : tbuild (sites ++ [s]) = tinsert (tbuild sites) (fst s) (snd s).
+Proof. unfold tbuild. rewrite fold_left_app. reflexivity. Qed.
+
+(* The trie built by inserting ANY list of sites is extensionally the finite map. *)
+Theorem trie_refines_map : forall sites, refines (tbuild sites) (build sites).
+Proof.
+  induction sites as [|s sites IH] using rev_ind; [exact refines_empty|].
+  rewrite tbuild_snoc, build_snoc. apply refines_insert. exact IH.
+Qed.
+
+(* the stored node.path is the path spelled by the edges leading to the node *)
+Corollary trie_stored_path sites h p s o :
+  tlookup (tbuild sites) h p = Some (s, o) -> o = p.
+Proof.
+  destruct (trie_refines_map sites) as [_ Hl]. rewrite Hl.
+  destruct (lookup (build sites) h p); cbn; [|discriminate]. intros H; injection H as _ <-. reflexivity.
+Qed.
+
+(* ---------- the lookup algorithms agree under the refinement ---------- *)
+Lemma first_some_edge_find root l :
+  first_some (fun c => edge_get c (t_edges root)) l =
+  match find (thost_present root) l with Some k => edge_get k (t_edges root) | None => None end.
+Proof.
+  induction l as [|c l IH]; [reflexivity|]. cbn [first_some find]. unfold thost_present at 1.
+  destruct (edge_get c (t_edges root)) eqn:E; [rewrite E; reflexivity|exact IH].
+Qed.
+
+Lemma tmatch_host_refines root m host :
+  refines root m ->
+  tmatch_host root host =
+  match match_host m host with Some k => edge_get k (t_edges root) | None => None end.
+Proof.
+  intros [Hh _]. unfold tmatch_host, match_host. rewrite first_some_edge_find.
+  rewrite (find_ext' (thost_present root) (host_present m) _ Hh). reflexivity.
+Qed.
+
+Lemma match_host_present m host k : match_host m host = Some k -> host_present m k = true.
+Proof. unfold match_host. intros H. apply find_some in H as [_ H]. exact H. Qed.
+
+Lemma first_some_host_refines root m hs :
+  refines root m ->
+  first_some (tmatch_host root) hs =
+  match first_some (match_host m) hs with Some k => edge_get k (t_edges root) | None => None end
+  /\ (forall k, first_some (match_host m) hs = Some k -> thost_present root k = true).
+Proof.
+  intros R. induction hs as [|h hs [IH1 IH2]]; [split; [reflexivity|discriminate]|].
+  cbn [first_some]. rewrite (tmatch_host_refines _ _ _ R).
+  destruct (match_host m h) as [k|] eqn:E.
+  - pose proof (match_host_present _ _ _ E) as Hp. destruct R as [Hh _]. rewrite <- Hh in Hp.
+    unfold thost_present in Hp. split.
+    + destruct (edge_get k (t_edges root)); [reflexivity|discriminate].
+    + intros k' H; injection H as <-. unfold thost_present. exact Hp.
+  - split; [exact IH1|exact IH2].
+Qed.
+
+Lemma longest_from_match_path_from m k g path :
+  (forall q, g q = option_map (fun s => (s, q)) (lookup m k q)) ->
+  forall n, longest_from g path n = match_path_from m k path n.
+Proof.
+  intros Hg. induction n as [|n IH]; [reflexivity|]. cbn [longest_from match_path_from].
+  rewrite Hg. destruct (lookup m k (firstn (S n) path)); cbn; [reflexivity|exact IH].
+Qed.
+
+Theorem tserve_refines root m xf hh up proto :
+  refines root m -> tserve root xf hh up proto = serve m xf hh up proto.
+Proof.
+  intros R. unfold tserve, serve, ttrie_match, trie_match.
+  destruct (split_host_path (strip_port hh ++ up)) as [host path].
+  destruct (first_some_host_refines root m (host :: default_fallbacks ++ xf) R) as [H1 H2].
+  rewrite H1. destruct (first_some (match_host m) (host :: default_fallbacks ++ xf)) as [k|]; [|reflexivity].
+  specialize (H2 k eq_refl). unfold thost_present in H2.
+  destruct (edge_get k (t_edges root)) as [b|] eqn:Eb; [|discriminate].
+  rewrite tmatch_path_longest_from. unfold match_path.
+  rewrite (longest_from_match_path_from m k (fun q => get q b) path).
+  - destruct (match_path_from m k path (length path)) as [[s q]|]; reflexivity.
+  - intros q. destruct R as [_ Hl]. rewrite <- Hl. unfold tlookup. rewrite Eb. reflexivity.
+Qed.
+
+(* the real data structure routes exactly as the finite map: every theorem about
+   [serve (build sites)] is a theorem about [tserve (tbuild sites)] *)
+Theorem tserve_build sites xf hh up proto :
+  tserve (tbuild sites) xf hh up proto = serve (build sites) xf hh up proto.
+Proof. apply tserve_refines, trie_refines_map. Qed.
+
+(* ====================================================================================== *)
+(* End-to-end specification: serve (build sites) = spec sites, for all site lists/requests *)
+(* ====================================================================================== *)
+
+Lemma split_first_slash_spec : forall s acc,
+  fst (split_first_slash s acc) = rev acc ++ upto_slash s /\
+  match snd (split_first_slash s acc) with Some r => r | None => [] end = after_slash s.
+Proof.
+  induction s as [|c s IH]; intros acc; cbn [split_first_slash upto_slash after_slash].
+  - cbn. rewrite app_nil_r. auto.
+  - destruct (c =? SLASH).
+    + cbn. rewrite app_nil_r. auto.
+    + destruct (IH (c :: acc)) as [H1 H2]. rewrite H1, H2. cbn [rev]. rewrite <- app_assoc. auto.
+Qed.
+
+Lemma split_host_path_addr key : split_host_path key = (addr_host key, addr_path key).
+Proof.
+  unfold split_host_path, addr_host, addr_path, spec_norm_host.
+  destruct (split_first_slash_spec key []) as [H1 H2].
+  destruct (split_first_slash key []) as [h rest]. cbn [fst snd rev app] in H1, H2.
+  subst h. rewrite <- H2. reflexivity.
+Qed.
+
+Lemma lookup_build_owner : forall sites h p, lookup (build sites) h p = owner sites h p.
+Proof.
+  induction sites as [|x sites IH] using rev_ind; intros h p; [reflexivity|].
+  rewrite build_snoc, lookup_insert, split_host_path_addr. cbn [fst snd].
+  unfold owner. rewrite rev_app_distr. cbn [rev app find]. unfold at_addr at 1.
+  destruct (beq (addr_host (fst x)) h && beq (addr_path (fst x)) p); [reflexivity|].
+  rewrite IH. reflexivity.
+Qed.
+
+Lemma host_present_build : forall sites h, host_present (build sites) h = host_declared sites h.
+Proof.
+  induction sites as [|x sites IH] using rev_ind; intros h; [reflexivity|].
+  rewrite build_snoc, host_present_insert, split_host_path_addr. cbn [fst].
+  unfold host_declared. rewrite existsb_app. cbn [existsb]. rewrite orb_false_r, orb_comm.
+  rewrite IH. reflexivity.
+Qed.
+
+Lemma star_labels_wild : forall j l, (j <= length l)%nat -> star_labels j l = wild j l.
+Proof.
+  unfold wild. induction j as [|j IH]; intros l Hj.
+  - destruct l; reflexivity.
+  - destruct l as [|x r]; [simpl in Hj; lia|]. cbn [star_labels repeat skipn app].
+    rewrite IH by (simpl in Hj; lia). reflexivity.
+Qed.
+
+Lemma host_candidates_patterns host : host_candidates host = patterns host.
+Proof.
+  unfold host_candidates, wildcard_candidates, patterns. f_equal.
+  apply map_ext_in. intros j Hj. apply in_seq in Hj. rewrite star_labels_wild by lia. reflexivity.
+Qed.
+
+Lemma match_path_from_prefixes t h path : forall k,
+  match_path_from t h path k =
+  first_some (fun q => option_map (fun s => (s, q)) (lookup t h q))
+             (map (fun k => firstn k path) (rev (seq 1 k))).
+Proof.
+  induction k as [|k IH]; [reflexivity|].
+  rewrite seq_S, rev_app_distr. cbn [rev app map first_some plus match_path_from].
+  destruct (lookup t h (firstn (S k) path)); cbn [option_map]; [reflexivity|exact IH].
+Qed.
+
+Lemma match_host_build sites h :
+  match_host (build sites) h = find (host_declared sites) (patterns h).
+Proof.
+  unfold match_host. rewrite host_candidates_patterns. apply find_ext'.
+  intros x. apply host_present_build.
+Qed.
+
+Lemma governing_build sites fbs host :
+  first_some (match_host (build sites)) (host :: fbs) = governing_pattern sites fbs host.
+Proof. unfold governing_pattern. apply first_some_ext. intros h. apply match_host_build. Qed.
+
+(* serve_http (build sites) req = spec sites req — for ALL site lists (duplicates, any order,
+   any bytes) and ALL requests (any Host bytes, any path bytes, any protocol version) *)
+Theorem route_spec_map sites xf hh up proto :
+  serve (build sites) xf hh up proto = spec sites xf hh up proto.
+Proof.
+  unfold serve, trie_match, spec. rewrite split_host_path_addr, governing_build.
+  destruct (governing_pattern sites _ _) as [pat|]; [|reflexivity].
+  unfold match_path. rewrite match_path_from_prefixes. unfold prefixes_longest_first.
+  rewrite (first_some_ext _ (fun q => option_map (fun s => (s, q)) (owner sites pat q)))
+    by (intros q; rewrite lookup_build_owner; reflexivity).
+  destruct (first_some _ _) as [[s q]|]; reflexivity.
+Qed.
+
+Theorem route_spec sites xf hh up proto :
+  tserve (tbuild sites) xf hh up proto = spec sites xf hh up proto.
+Proof. rewrite tserve_build. apply route_spec_map. Qed.
+
+(* ---------- corollaries of the specification ---------- *)
+Definition addr_key (s : bytes * N) : bytes * bytes := (addr_host (fst s), addr_path (fst s)).
+
+Lemma key_of_addr_key sites : map key_of sites = map addr_key sites.
+Proof. apply map_ext. intros s. unfold key_of, addr_key. apply split_host_path_addr. Qed.
+
+(* order independence, restated on the specification and on the real trie *)
+Theorem spec_order_independent sites sites' xf hh up proto :
+  NoDup (map addr_key sites) -> Permutation sites sites' ->
+  spec sites xf hh up proto = spec sites' xf hh up proto /\
+  tserve (tbuild sites) xf hh up proto = tserve (tbuild sites') xf hh up proto.
+Proof.
+  intros Hnd Hperm. rewrite <- key_of_addr_key in Hnd.
+  rewrite !route_spec, <- !route_spec_map.
+  split; apply route_order_independent; assumption.
+Qed.
+
+(* with two sites declared at the same normalised address the later one wins, so the
+   uniqueness hypothesis cannot be dropped *)
+Lemma order_dependent_with_duplicates :
+  exists sites sites' xf hh up proto,
+    Permutation sites sites' /\
+    tserve (tbuild sites) xf hh up proto <> tserve (tbuild sites') xf hh up proto.
+Proof.
+  exists [(bs "a.com"%string, 1); (bs "A.com:80"%string, 2)],
+         [(bs "A.com:80"%string, 2); (bs "a.com"%string, 1)], [], (bs "a.com"%string), (bs "/"%string), 1.
+  split; [apply perm_swap|]. vm_compute. discriminate.
+Qed.
+
+Lemma owner_some sites h p s :
+  owner sites h p = Some s ->
+  exists key, In (key, s) sites /\ addr_host key = h /\ addr_path key = p.
+Proof.
+  unfold owner. destruct (find (at_addr h p) (rev sites)) as [[key s']|] eqn:E; [|discriminate].
+  cbn. intros H; injection H as ->. apply find_some in E as [Hin Hk]. apply in_rev in Hin.
+  unfold at_addr in Hk. cbn [fst] in Hk. apply andb_true_iff in Hk as [H1 H2].
+  apply beq_eq in H1, H2. eauto.
+Qed.
+
+Lemma owner_declared sites key s :
+  In (key, s) sites -> owner sites (addr_host key) (addr_path key) <> None.
+Proof.
+  intros Hin. unfold owner.
+  destruct (find (at_addr (addr_host key) (addr_path key)) (rev sites)) eqn:E; [discriminate|].
+  apply in_rev in Hin. pose proof (find_none _ _ E _ Hin) as H. unfold at_addr in H. cbn [fst] in H.
+  rewrite !beq_refl in H. discriminate.
+Qed.
+
+Lemma first_some_first {A B} (f : A -> option B) : forall l y,
+  first_some f l = Some y ->
+  exists pre x post, l = pre ++ x :: post /\ f x = Some y /\ forall z, In z pre -> f z = None.
+Proof.
+  induction l as [|a l IH]; intros y H; cbn [first_some] in H; [discriminate|].
+  destruct (f a) as [b|] eqn:E.
+  - injection H as <-. exists [], a, l. repeat split; auto. intros z [].
+  - destruct (IH _ H) as (pre & x & post & -> & Hx & Hpre). exists (a :: pre), x, post.
+    repeat split; auto. intros z [<-|Hz]; auto.
+Qed.
+
+Lemma first_some_none {A B} (f : A -> option B) : forall l,
+  first_some f l = None -> forall z, In z l -> f z = None.
+Proof.
+  induction l as [|a l IH]; intros H z Hz; [destruct Hz|]. cbn [first_some] in H.
+  destruct (f a) eqn:E; [discriminate|]. destruct Hz as [<-|Hz]; auto.
+Qed.
+
+(* the governing pattern is the most specific declared pattern of the first host (request host,
+   then the fallbacks in order) that has any declared pattern *)
+Theorem governing_pattern_most_specific sites fbs host pat :
+  governing_pattern sites fbs host = Some pat ->
+  host_declared sites pat = true /\
+  exists before h after pre post,
+    host :: fbs = before ++ h :: after /\ patterns h = pre ++ pat :: post /\
+    (forall p, In p pre -> host_declared sites p = false) /\
+    (forall h', In h' before -> forall p, In p (patterns h') -> host_declared sites p = false).
+Proof.
+  unfold governing_pattern. intros H.
+  apply first_some_first in H as (before & h & after & Hl & Hf & Hb).
+  apply find_first in Hf as (pre & post & Hp & Hd & Hpre).
+  split; [exact Hd|]. exists before, h, after, pre, post. repeat split; auto.
+  intros h' Hh' p Hp'. exact (find_none _ _ (Hb _ Hh') _ Hp').
+Qed.
+
+(* relational reading of a hit: the site is a declared one whose host pattern is the governing
+   pattern and whose path is the LONGEST declared byte-wise prefix of the request path under
+   that pattern (last declaration wins on equal addresses); exactly that site's chain runs *)
+Theorem route_site_characterised sites xf hh up proto s q :
+  tserve (tbuild sites) xf hh up proto = Site s q ->
+  let key := strip_port hh ++ up in
+  exists pat,
+    governing_pattern sites (default_fallbacks ++ xf) (addr_host key) = Some pat /\
+    owner sites pat q = Some s /\ q <> [] /\ has_prefix (addr_path key) q = true /\
+    (exists a, In (a, s) sites /\ addr_host a = pat /\ addr_path a = q) /\
+    (forall a' s', In (a', s') sites -> addr_host a' = pat ->
+                   has_prefix (addr_path key) (addr_path a') = true ->
+                   (length (addr_path a') <= length q)%nat) /\
+    handlers_run (tserve (tbuild sites) xf hh up proto) = [s].
+Proof.
+  intros H key. assert (Hrun : handlers_run (tserve (tbuild sites) xf hh up proto) = [s])
+    by (rewrite H; reflexivity).
+  rewrite tserve_build in H. unfold serve, trie_match in H.
+  rewrite split_host_path_addr, governing_build in H. fold key in H.
+  destruct (governing_pattern sites (default_fallbacks ++ xf) (addr_host key)) as [pat|]; [|discriminate].
+  destruct (match_path (build sites) pat (addr_path key)) as [[s' q']|] eqn:Em; [|discriminate].
+  injection H as -> ->. apply match_path_longest in Em as (Hp & Hne & Hl & Hmax).
+  rewrite lookup_build_owner in Hl. exists pat. repeat split; auto.
+  - apply owner_some. exact Hl.
+  - intros a' s' Hin Hpat Hpre. apply Hmax; [discriminate|exact Hpre|].
+    rewrite lookup_build_owner, <- Hpat. apply (owner_declared _ _ _ Hin).
+Qed.
+
+(* ---------- no match <=> not found, and then no site's handlers run ---------- *)
+(* "the request matches no site": no pattern of the request host or of a fallback host is
+   declared, or the governing pattern has no site whose path is a prefix of the request path *)
+Definition no_site_matches (sites : list (bytes * N)) (xf : list bytes) (hh up : bytes) : Prop :=
+  let key := strip_port hh ++ up in
+  match governing_pattern sites (default_fallbacks ++ xf) (addr_host key) with
+  | None => True
+  | Some pat => forall a s, In (a, s) sites -> addr_host a = pat ->
+                            has_prefix (addr_path key) (addr_path a) = false
+  end.
+
+Theorem no_match_runs_no_handler sites xf hh up proto :
+  no_site_matches sites xf hh up <->
+  (tserve (tbuild sites) xf hh up proto = NotFound (if 2 <=? proto then 421 else 404) /\
+   handlers_run (tserve (tbuild sites) xf hh up proto) = []).
+Proof.
+  unfold no_site_matches. rewrite tserve_build. unfold serve, trie_match.
+  rewrite split_host_path_addr, governing_build.
+  set (key := strip_port hh ++ up).
+  destruct (governing_pattern sites (default_fallbacks ++ xf) (addr_host key)) as [pat|].
+  2:{ split; auto. }
+  destruct (match_path (build sites) pat (addr_path key)) as [[s q]|] eqn:Em.
+  - split; [|intros [H _]; discriminate]. intros Hno. exfalso.
+    apply match_path_longest in Em as (Hp & _ & Hl & _). rewrite lookup_build_owner in Hl.
+    apply owner_some in Hl as (a & Hin & Ha & Hq). rewrite <- Hq, (Hno _ _ Hin Ha) in Hp. discriminate.
+  - split; [auto|]. intros _ a s Hin Ha.
+    destruct (has_prefix (addr_path key) (addr_path a)) eqn:Hp; [|reflexivity]. exfalso.
+    apply (owner_declared _ _ _ Hin). rewrite <- lookup_build_owner, Ha.
+    apply (match_path_none _ _ _ Em); [discriminate|exact Hp].
+Qed.
+
+(* at most one site's chain runs, and it is the routed one *)
+Theorem handlers_run_at_most_one sites xf hh up proto :
+  (length (handlers_run (tserve (tbuild sites) xf hh up proto)) <= 1)%nat.
+Proof. destruct (tserve _ _ _ _ _); cbn; lia. Qed.
+
+(* ---------- host matching ignores letter case and port ---------- *)
+Definition no_byte (c : N) (s : bytes) : bool := forallb (fun x => negb (x =? c)) s.
+(* a host name / port text without ':', '[', ']' and '/' *)
+Definition plain (s : bytes) : bool :=
+  no_byte COLON s && no_byte LBR s && no_byte RBR s && no_byte SLASH s.
+Definition with_port (h : bytes) (port : option bytes) : bytes :=
+  match port with Some p => h ++ COLON :: p | None => h end.
+
+Lemma no_byte_app c a b : no_byte c (a ++ b) = no_byte c a && no_byte c b.
+Proof. unfold no_byte. apply forallb_app. Qed.
+
+Lemma no_byte_rev c a : no_byte c (rev a) = no_byte c a.
+Proof.
+  induction a as [|x a IH]; [reflexivity|]. cbn [rev]. rewrite no_byte_app, IH. cbn.
+  rewrite andb_true_r. apply andb_comm.
+Qed.
+
+Lemma index_of_none c s : no_byte c s = true -> index_of c s = None.
+Proof.
+  induction s as [|x s IH]; [reflexivity|]. cbn. intros H. apply andb_true_iff in H as [H1 H2].
+  apply negb_true_iff in H1. rewrite H1, (IH H2). reflexivity.
+Qed.
+
+Lemma index_of_app c a b : no_byte c a = true -> index_of c (a ++ c :: b) = Some (length a).
+Proof.
+  induction a as [|x a IH]; cbn.
+  - rewrite N.eqb_refl. reflexivity.
+  - intros H. apply andb_true_iff in H as [H1 H2]. apply negb_true_iff in H1.
+    rewrite H1, (IH H2). reflexivity.
+Qed.
+
+Lemma contains_byte_none c s : no_byte c s = true -> contains_byte c s = false.
+Proof. intros H. unfold contains_byte. rewrite (index_of_none _ _ H). reflexivity. Qed.
+
+Lemma no_byte_mid c h p :
+  no_byte c h = true -> no_byte c p = true -> (COLON =? c) = false ->
+  no_byte c (h ++ COLON :: p) = true.
+Proof.
+  intros H1 H2 H3. rewrite no_byte_app, H1. unfold no_byte in *. cbn [forallb andb].
+  rewrite H3, H2. reflexivity.
+Qed.
+
+Lemma split_host_port_plain h p :
+  plain h = true -> plain p = true -> split_host_port (h ++ COLON :: p) = Some (h, p).
+Proof.
+  unfold plain. intros Hh Hp.
+  apply andb_true_iff in Hh as [Hh Hh4]. apply andb_true_iff in Hh as [Hh Hh3].
+  apply andb_true_iff in Hh as [Hh1 Hh2].
+  apply andb_true_iff in Hp as [Hp Hp4]. apply andb_true_iff in Hp as [Hp Hp3].
+  apply andb_true_iff in Hp as [Hp1 Hp2].
+  unfold split_host_port, last_index.
+  rewrite rev_app_distr. cbn [rev]. rewrite <- app_assoc. cbn [app].
+  rewrite index_of_app by (rewrite no_byte_rev; exact Hp1).
+  rewrite rev_length, app_length. cbn [length].
+  replace (length h + S (length p) - 1 - length p)%nat with (length h) by lia.
+  assert (Hc0 : match h ++ COLON :: p with [] => None | c0 :: _ =>
+            if c0 =? LBR then @None (bytes * bytes) else Some (h, p) end = Some (h, p)).
+  { destruct h as [|c h']; [reflexivity|]. cbn in Hh2. apply andb_true_iff in Hh2 as [Hc _].
+    apply negb_true_iff in Hc. cbn [app]. rewrite Hc. reflexivity. }
+  destruct (h ++ COLON :: p) as [|c0 rest] eqn:E; [discriminate|].
+  destruct (c0 =? LBR) eqn:Ec; [discriminate|].
+  rewrite <- E. rewrite firstn_app, firstn_all, Nat.sub_diag. cbn [firstn]. rewrite app_nil_r.
+  rewrite (contains_byte_none _ _ Hh1).
+  rewrite !contains_byte_none by (apply no_byte_mid; auto).
+  replace (length h + 1)%nat with (length h + 1 + 0)%nat by lia.
+  rewrite skipn_app, skipn_all2 by lia. cbn [app].
+  replace (length h + 1 + 0 - length h)%nat with 1%nat by lia. reflexivity.
+Qed.
+
+Lemma split_host_port_no_colon h : no_byte COLON h = true -> split_host_port h = None.
+Proof.
+  intros H. unfold split_host_port, last_index.
+  rewrite index_of_none by (rewrite no_byte_rev; exact H). reflexivity.
+Qed.
+
+Lemma strip_port_with_port h port :
+  plain h = true -> match port with Some p => plain p = true | None => True end ->
+  strip_port (with_port h port) = h.
+Proof.
+  intros Hh Hp. unfold strip_port, with_port. destruct port as [p|].
+  - rewrite split_host_port_plain by assumption. reflexivity.
+  - unfold plain in Hh. apply andb_true_iff in Hh as [Hh _]. apply andb_true_iff in Hh as [Hh _].
+    apply andb_true_iff in Hh as [Hh _]. rewrite split_host_port_no_colon by exact Hh. reflexivity.
+Qed.
+
+Lemma upto_slash_app h x : no_byte SLASH h = true -> upto_slash (h ++ x) = h ++ upto_slash x.
+Proof.
+  induction h as [|c h IH]; [reflexivity|]. cbn. intros H. apply andb_true_iff in H as [H1 H2].
+  apply negb_true_iff in H1. rewrite H1, (IH H2). reflexivity.
+Qed.
+
+Lemma after_slash_app h x : no_byte SLASH h = true -> after_slash (h ++ x) = after_slash x.
+Proof.
+  induction h as [|c h IH]; [reflexivity|]. cbn. intros H. apply andb_true_iff in H as [H1 H2].
+  apply negb_true_iff in H1. rewrite H1. apply IH. exact H2.
+Qed.
+
+(* the routing outcome depends on the Host header only through its lower-cased name: any
+   letter case, with or without any port *)
+Theorem host_case_port_irrelevant sites xf h h' port port' up proto :
+  plain h = true -> plain h' = true ->
+  match port with Some p => plain p = true | None => True end ->
+  match port' with Some p => plain p = true | None => True end ->
+  to_lower h = to_lower h' ->
+  tserve (tbuild sites) xf (with_port h port) up proto =
+  tserve (tbuild sites) xf (with_port h' port') up proto.
+Proof.
+  intros Hh Hh' Hp Hp' Hl. rewrite !route_spec. unfold spec.
+  rewrite !strip_port_with_port by assumption.
+  assert (Hs : no_byte SLASH h = true /\ no_byte SLASH h' = true).
+  { unfold plain in Hh, Hh'. apply andb_true_iff in Hh as [_ Hh], Hh' as [_ Hh']. auto. }
+  destruct Hs as [Hs Hs'].
+  assert (Hhost : addr_host (h ++ up) = addr_host (h' ++ up)).
+  { unfold addr_host, spec_norm_host. rewrite !upto_slash_app by assumption.
+    unfold to_lower in *. rewrite !map_app, Hl. reflexivity. }
+  assert (Hpath : addr_path (h ++ up) = addr_path (h' ++ up)).
+  { unfold addr_path. rewrite !after_slash_app by assumption. reflexivity. }
+  rewrite Hhost, Hpath. reflexivity.
+Qed.
+
+(* ---------- bracketed IPv6 literals: brackets and port are ignored too ---------- *)
+Definition bracketed (a : bytes) (port : option bytes) : bytes :=
+  LBR :: a ++ RBR :: match port with Some p => COLON :: p | None => [] end.
+
+Lemma index_of_rbr a rest :
+  no_byte RBR a = true -> index_of RBR (LBR :: a ++ RBR :: rest) = Some (S (length a)).
+Proof.
+  intros H. cbn [index_of]. change (LBR =? RBR) with false. cbv iota.
+  rewrite index_of_app by exact H. reflexivity.
+Qed.
+
+Lemma skipn_app_exact {A} (l1 l2 : list A) : skipn (length l1) (l1 ++ l2) = l2.
+Proof. induction l1; cbn; auto. Qed.
+Lemma firstn_app_exact {A} (l1 l2 : list A) : firstn (length l1) (l1 ++ l2) = l1.
+Proof. induction l1; cbn; auto. f_equal; auto. Qed.
+
+Lemma split_host_port_bracket_port a p :
+  no_byte LBR a = true -> no_byte RBR a = true -> plain p = true ->
+  split_host_port (bracketed a (Some p)) = Some (a, p).
+Proof.
+  unfold plain, bracketed. intros Ha1 Ha2 Hp.
+  apply andb_true_iff in Hp as [Hp Hp4]. apply andb_true_iff in Hp as [Hp Hp3].
+  apply andb_true_iff in Hp as [Hp1 Hp2].
+  remember (a ++ RBR :: COLON :: p) as tl eqn:Etl.
+  assert (Htl : tl = (a ++ [RBR]) ++ COLON :: p) by (rewrite Etl, <- app_assoc; reflexivity).
+  assert (Hlen : length tl = (length a + 2 + length p)%nat)
+    by (rewrite Etl, app_length; cbn [length]; lia).
+  assert (F1 : last_index COLON (LBR :: tl) = Some (S (S (length a)))).
+  { unfold last_index. cbn [rev length]. rewrite Hlen, Htl, rev_app_distr. cbn [rev].
+    rewrite <- !app_assoc. cbn [app].
+    rewrite index_of_app by (rewrite no_byte_rev; exact Hp1).
+    rewrite rev_length. f_equal. lia. }
+  assert (F2 : index_of RBR (LBR :: tl) = Some (S (length a))) by (rewrite Etl; apply index_of_rbr; exact Ha2).
+  assert (F4 : contains_byte LBR tl = false).
+  { apply contains_byte_none. rewrite Etl, no_byte_app, Ha1. unfold no_byte in *. cbn. exact Hp2. }
+  assert (F5 : skipn (S (length a)) tl = COLON :: p).
+  { rewrite Htl. replace (S (length a)) with (length (a ++ [RBR])) by (rewrite app_length; cbn; lia).
+    apply skipn_app_exact. }
+  assert (F6 : firstn (length a) tl = a) by (rewrite Etl; apply firstn_app_exact).
+  unfold split_host_port. rewrite F1, F2. change (LBR =? LBR) with true. cbv iota.
+  cbn [length]. rewrite Hlen.
+  replace (Nat.eqb (S (length a) + 1) (S (length a + 2 + length p))) with false
+    by (symmetry; apply Nat.eqb_neq; lia).
+  replace (Nat.eqb (S (length a) + 1) (S (S (length a)))) with true
+    by (symmetry; apply Nat.eqb_eq; lia).
+  cbn [skipn]. rewrite F4.
+  assert (E1 : skipn (S (length a) + 1) (LBR :: tl) = COLON :: p).
+  { replace (S (length a) + 1)%nat with (S (S (length a))) by lia. exact F5. }
+  assert (E2 : skipn (S (S (length a)) + 1) (LBR :: tl) = p).
+  { replace (S (S (length a)) + 1)%nat with (S (S (S (length a)))) by lia.
+    change (skipn (S (S (length a))) tl = p).
+    replace tl with ((a ++ [RBR; COLON]) ++ p) by (rewrite Etl, <- app_assoc; reflexivity).
+    replace (S (S (length a))) with (length (a ++ [RBR; COLON])) by (rewrite app_length; cbn; lia).
+    apply skipn_app_exact. }
+  assert (E3 : firstn (S (length a) - 1) tl = a).
+  { replace (S (length a) - 1)%nat with (length a) by lia. exact F6. }
+  rewrite E1, E2, E3.
+  rewrite contains_byte_none by (unfold no_byte in *; cbn; exact Hp3). reflexivity.
+Qed.
+
+Lemma split_host_port_bracket_noport a :
+  no_byte RBR a = true -> split_host_port (bracketed a None) = None.
+Proof.
+  unfold bracketed. intros Ha. unfold split_host_port.
+  destruct (last_index COLON (LBR :: a ++ [RBR])); [|reflexivity].
+  change (LBR =? LBR) with true. cbv iota. rewrite index_of_rbr by exact Ha.
+  cbn [length]. rewrite app_length. cbn [length].
+  replace (Nat.eqb (S (length a) + 1) (S (length a + 1))) with true
+    by (symmetry; apply Nat.eqb_eq; lia).
+  reflexivity.
+Qed.
+
+Lemma unbracket_bracketed a : unbracket (bracketed a None) = a.
+Proof.
+  unfold unbracket, bracketed. change (LBR =? LBR) with true. cbv iota.
+  rewrite rev_app_distr. cbn [rev app]. change (RBR =? RBR) with true. cbv iota. apply rev_involutive.
+Qed.
+
+Lemma lower_byte_fix c x :
+  (c <? 65) || ((90 <? c) && (c <? 97)) || (122 <? c) = true ->
+  (lower_byte x =? c) = (x =? c).
+Proof.
+  intros Hc. unfold lower_byte. destruct ((65 <=? x) && (x <=? 90)) eqn:E; [|reflexivity].
+  destruct (N.eqb_spec (x + 32) c), (N.eqb_spec x c); try reflexivity; exfalso; lia.
+Qed.
+
+Lemma no_byte_to_lower c s :
+  (c <? 65) || ((90 <? c) && (c <? 97)) || (122 <? c) = true ->
+  no_byte c (to_lower s) = no_byte c s.
+Proof.
+  intros Hc. unfold no_byte, to_lower. induction s as [|x s IH]; [reflexivity|].
+  cbn [map forallb]. rewrite IH, (lower_byte_fix _ _ Hc). reflexivity.
+Qed.
+
+Lemma to_lower_bracketed a : to_lower (bracketed a None) = bracketed (to_lower a) None.
+Proof. unfold bracketed, to_lower. cbn [map]. rewrite map_app. reflexivity. Qed.
+
+Lemma unbracket_no_lbr a : no_byte LBR a = true -> unbracket a = a.
+Proof.
+  destruct a as [|c a]; [reflexivity|]. cbn. intros H. apply andb_true_iff in H as [H _].
+  apply negb_true_iff in H. rewrite H. reflexivity.
+Qed.
+
+(* [a] is the text between the brackets: no brackets, no slash, and not itself of the form
+   host:port (an IPv6 address has at least two colons) *)
+Theorem host_bracket_port_irrelevant sites xf a a' port port' up proto :
+  no_byte LBR a = true -> no_byte RBR a = true -> no_byte SLASH a = true ->
+  no_byte LBR a' = true -> no_byte RBR a' = true -> no_byte SLASH a' = true ->
+  split_host_port (to_lower a) = None ->
+  match port with Some p => plain p = true | None => True end ->
+  match port' with Some p => plain p = true | None => True end ->
+  to_lower a = to_lower a' -> upto_slash up = [] ->
+  tserve (tbuild sites) xf (bracketed a port) up proto =
+  tserve (tbuild sites) xf (bracketed a' port') up proto.
+Proof.
+  intros Ha1 Ha2 Ha3 Hb1 Hb2 Hb3 Hnp Hp Hp' Hl Hup. rewrite !route_spec. unfold spec.
+  assert (K : forall b o, no_byte LBR b = true -> no_byte RBR b = true -> no_byte SLASH b = true ->
+                          split_host_port (to_lower b) = None ->
+                          match o with Some p => plain p = true | None => True end ->
+                          addr_host (strip_port (bracketed b o) ++ up) = to_lower b /\
+                          addr_path (strip_port (bracketed b o) ++ up) = SLASH :: after_slash up).
+  { intros b o B1 B2 B3 Bn Bo. destruct o as [p|].
+    - unfold strip_port. rewrite split_host_port_bracket_port by assumption.
+      unfold addr_host, addr_path, spec_norm_host.
+      rewrite upto_slash_app, after_slash_app, Hup, app_nil_r by assumption. rewrite Bn.
+      rewrite unbracket_no_lbr by (rewrite no_byte_to_lower by reflexivity; exact B1). auto.
+    - unfold strip_port. rewrite split_host_port_bracket_noport by assumption.
+      assert (Hs : no_byte SLASH (bracketed b None) = true).
+      { unfold bracketed. cbv iota. change (LBR :: b ++ [RBR]) with ([LBR] ++ b ++ [RBR]).
+        rewrite !no_byte_app, B3. reflexivity. }
+      unfold addr_host, addr_path, spec_norm_host.
+      rewrite upto_slash_app, after_slash_app, Hup, app_nil_r by assumption.
+      rewrite to_lower_bracketed.
+      rewrite split_host_port_bracket_noport by (rewrite no_byte_to_lower by reflexivity; exact B2).
+      rewrite unbracket_bracketed. auto. }
+  destruct (K a port Ha1 Ha2 Ha3 Hnp Hp) as [K1 K2].
+  assert (Hnp' : split_host_port (to_lower a') = None) by (rewrite <- Hl; exact Hnp).
+  destruct (K a' port' Hb1 Hb2 Hb3 Hnp' Hp') as [K1' K2'].
+  rewrite K1, K2, K1', K2', Hl. reflexivity.
+Qed.
+
+(* a bracketed text with exactly one colon is read as host:port once the brackets are gone:
+   there the port is NOT ignored *)
+Lemma host_bracket_one_colon_differs :
+  exists sites xf a port up proto,
+    no_byte LBR a = true /\ no_byte RBR a = true /\ no_byte SLASH a = true /\ plain port = true /\
+    tserve (tbuild sites) xf (bracketed a (Some port)) up proto <>
+    tserve (tbuild sites) xf (bracketed a None) up proto.
+Proof.
+  exists [(bs "a.com"%string, 1)], [], (bs "a.com:1"%string), (bs "2"%string), (bs "/"%string), 1.
+  vm_compute. repeat split; discriminate.
 Qed.
